@@ -102,7 +102,7 @@ def script_events(t, modname='vtw.tests', nth=1):
         return [('F', '%s (i=0)' % base)]
     if s in ('skip_dec', 'skip_cls', 'skip_setup', 'skip_body'):
         return [('S', base)]
-    if s in ('fail', 'uxs', 'swap_fail'):
+    if s in ('fail', 'uxs', 'swap_fail', 'nested_fail'):
         return [('F', base)]
     if s in ('error', 'setup_err', 'teardown_err', 'cleanup_err', 'sysexit'):
         return [('E', base)]
